@@ -152,8 +152,8 @@ class Interp(object):
         self.depth = 0
 
     # ------------------------------------------------------------------ entry
-    def run(self, finfo, args=None):
-        env = {}
+    def run(self, finfo, args=None, closure=None):
+        env = dict(closure or {})
         for p in finfo.params + finfo.kwonly:
             env[p] = args[p] if args and p in args else Sym(ast.Name(id=p, ctx=ast.Load()))
         sink_names = set()
@@ -217,6 +217,40 @@ class Interp(object):
             return Sym(ast.BinOp(left=expr_of(a), op=ast.Add(), right=expr_of(b)))
         if isinstance(e, ast.Call):
             return self._call(e, st)
+        if isinstance(e, (ast.ListComp, ast.GeneratorExp)) and len(e.generators) == 1 and not e.generators[0].ifs \
+                and isinstance(e.generators[0].target, ast.Name):
+            g = e.generators[0]
+            it = self.eval(g.iter, st)
+            var = g.target.id
+            cells = []
+            pieces = []
+            if isinstance(it, ListV):
+                for c in it.cells:
+                    if isinstance(c, One):
+                        pieces.append((c.value, None, None))
+                    else:
+                        pieces.append((c.template, c.var, c.base))
+            elif isinstance(it, NoneV):
+                self.none_iter.append((e, st.func, U(g.iter)))
+                return ListV([])
+            elif isinstance(it, Sym) and (it.text in self.scn or _eligible(it.expr)):
+                k = self.scn.get(it.text)
+                if k == NONE:
+                    self.none_iter.append((e, st.func, it.text))
+                    return ListV([])
+                if k != EMPTY:
+                    pieces.append((Sym(ast.Name(id=var, ctx=ast.Load())), var, it.text))
+            else:
+                return Unknown('comprehension over an opaque iterable')
+            for val, v, base in pieces:
+                sub = st.fork()
+                sub.env[var] = val
+                cellv = self.eval(e.elt, sub)
+                if base is None:
+                    cells.append(One(cellv))
+                else:
+                    cells.append(Many(cellv, v, base))
+            return ListV(cells)
         if isinstance(e, ast.IfExp):
             t = self.truth(e.test, st)
             if t is True:
@@ -244,12 +278,12 @@ class Interp(object):
 
     def _call(self, e, st):
         r = self.repo.resolve_call(st.func, e) if st.func is not None else None
-        if r is not None and r[0].name in self.inline and r[1] == 'func' and self.depth < 6:
+        if r is not None and r[1] == 'func' and self.depth < 6 and (r[0].name in self.inline or self._local_helper(st.func, r[0])):
             callee, _, bound = r
             args = {p: self.eval(a, st) if not _is_default(callee, p, a) else self._eval_default(a) for p, a in bound.items()}
             sub = Interp(self.repo, self.scn, self.inline)
             sub.depth = self.depth + 1
-            out = sub.run(callee, args)
+            out = sub.run(callee, args, closure=st.env if callee.outer is not None else None)
             self.none_iter += sub.none_iter
             return out
         if isinstance(e.func, ast.Name) and e.func.id == 'list' and len(e.args) == 1:
@@ -267,6 +301,16 @@ class Interp(object):
                 hdr = self.eval(e.args[2], st)
             self.frames.append(Frame(e, e.args[0].id, hdr, st.func))
         return Sym(self._subst(e, st))
+
+    def _local_helper(self, caller, callee):
+        """a small helper of the caller's own module (or a function nested in it) that builds no frame itself"""
+        if callee.outer is not None:
+            return True
+        if callee.module is not caller.module or callee is caller:
+            return False
+        n = sum(1 for _ in ast.walk(callee.node))
+        builds = any(isinstance(x, ast.Call) and U(x.func).endswith('DataFrame') for x in ast.walk(callee.node))
+        return n < 400 and not builds and callee.name.startswith('_')
 
     def _eval_default(self, a):
         if isinstance(a, ast.Constant) and a.value is None:
